@@ -28,7 +28,11 @@ end
 
 def NameInfo.mapP (φ : Pos → Pos) (i : NameInfo) : NameInfo := { i with declaredAt := φ i.declaredAt }
 
-def Binding.mapP (φ ψ : Pos → Pos) (b : Binding) : Binding := { b with loc := ψ b.loc, info := b.info.mapP φ }
+def Binding.mapP (φ ψ : Pos → Pos) (b : Binding) : Binding :=
+  { b with loc := ψ b.loc, info := b.info.mapP φ, alias := b.alias.map (fun x => (φ x.1, x.2)) }
+
+def StartSpec.mapP (φ : Pos → Pos) (s : StartSpec) : StartSpec :=
+  { fallback := φ s.fallback, alias := s.alias.map (fun x => (φ x.1, x.2)) }
 
 /-- the actions of the same visit method on the other layout -/
 def Instr.mapP (φ ψ : Pos → Pos) : Instr → Instr
@@ -38,7 +42,7 @@ def Instr.mapP (φ ψ : Pos → Pos) : Instr → Instr
   | .compName f b => .compName f (b.mapP φ ψ)
   | .flowAttr p id f => .flowAttr (p.map φ) id f
   | .attrAssign p => .attrAssign (p.map φ)
-  | .addStar loc start m => .addStar (ψ loc) (φ start) m
+  | .addStar loc start m => .addStar (ψ loc) (start.mapP φ) m
   | .scopeBody cls self reg args body =>
     .scopeBody cls (self.mapP φ ψ) reg (args.map (Binding.mapP φ ψ)) (body.map (Ast.mapPos φ))
   | .saveCur d => .saveCur d
